@@ -22,6 +22,15 @@ class Check(PropertyCheck):
             "non-trivial = >=3 accepted dispatches; distinct = distinct scenario text")
     ASSUMPTIONS = ["instances are valid (non-empty duplicate-free machine lists, durations >= 0)"]
 
+    def make_impl(self, scenario):
+        if scenario.meta.get("observers"):
+            from impl_ext import ImplEnv
+            impl = ImplEnv(filter_style=scenario.meta.get("filter_style", "callable"))
+        else:
+            from impl import Impl
+            impl = Impl(scenario.meta.get("filter_style", "callable"))
+        return impl
+
     def generate(self, rng, n, tier):
         if tier == "thorough":
             # exhaustive small scope first (every instance <= 2 jobs x 2 operations, durations 0..2, every interleaving)
@@ -32,7 +41,7 @@ class Check(PropertyCheck):
                 yield slices.zero_first_scenario(rng)
                 continue
             # every other scenario continues with a second episode after reset(): the clauses hold there as well
-            yield slices.dispatch_scenario(rng, with_invalid=True, max_jobs=4 if tier == "quick" else 5,
+            yield slices.dispatch_scenario(rng, observers=True, with_invalid=True, max_jobs=4 if tier == "quick" else 5,
                                            max_ops=4 if tier == "quick" else 6, replay=rng.random() < 0.5,
                                            queries=rng.random() < 0.5)   # users look at the dispatcher between dispatches
 
